@@ -23,6 +23,7 @@ non-positive number                                               (`…_welldefi
 -/
 import EPV.Gen.K2Init
 import EPV.Lemmas.BurnK2
+import EPV.Lemmas.Bridge.DetonTactics
 
 set_option linter.all false
 
@@ -34,13 +35,7 @@ theorem k2init_accepts_iff_coded (p : K2Init.P) :
     K2Init.outcome p = .ok ↔
       K2Coded p.geometry p.R p.D1 p.D2 p.a1 p.a2 p.a4 p.a5 p.td1 p.td2 p.td3 p.td4 p.td5 := by
   unfold K2Coded
-  by_cases g2 : K2Init.c0 p
-  · simp only [epv_tree, if_pos g2, ite_raise_eq_ok]
-    simp only [epv_cond, not_le, not_lt, and_true] at g2 ⊢
-    exact ⟨fun h => ⟨Or.inl g2, h⟩, fun h => h.2⟩
-  · simp only [epv_tree, if_neg g2, ite_raise_eq_ok, ite_else_raise_eq_ok]
-    simp only [epv_cond, not_le, not_lt, and_true] at g2 ⊢
-    exact ⟨fun h => ⟨Or.inr h.1, h.2⟩, fun h => ⟨h.1.resolve_left g2, h.2⟩⟩
+  epv_deton_accept_iff
 
 theorem k2init_accepts_of_documented (p : K2Init.P)
     (h : K2Documented p.geometry p.R p.D1 p.D2 p.a1 p.a2 p.a4 p.a5 p.td1 p.td2 p.td3 p.td4 p.td5) :
@@ -65,14 +60,14 @@ theorem k2d2_welldefined (p : K2d2.P) (h : K2d2.Adm p) (x y : ℝ) : K2d2.L12.We
   have h1 : p.D1 ≠ 0 := (h.hD2.trans_le h.hD).ne'
   have h2 : p.D2 ≠ 0 := h.hD2.ne'
   unfold K2d2.L12.WellDefined
-  refine ⟨?_, h1, h2, ?_, ?_, ?_, ?_⟩ <;> exact add_nonneg (mul_self_nonneg _) (mul_self_nonneg _)
+  (try constructorm* _ ∧ _) <;> first | exact h1 | exact h2 | positivity | nlinarith [mul_self_nonneg x, mul_self_nonneg y]
 
 theorem k2d3_welldefined (p : K2d3.P) (h : K2d3.Adm p) (x y z : ℝ) : K2d3.L12.WellDefined p x y z := by
   have h1 : p.D1 ≠ 0 := (h.hD2.trans_le h.hD).ne'
   have h2 : p.D2 ≠ 0 := h.hD2.ne'
   unfold K2d3.L12.WellDefined
-  refine ⟨?_, h1, h2, ?_, ?_, ?_, ?_⟩ <;>
-    exact add_nonneg (add_nonneg (mul_self_nonneg _) (mul_self_nonneg _)) (mul_self_nonneg _)
+  (try constructorm* _ ∧ _) <;>
+    first | exact h1 | exact h2 | positivity | nlinarith [mul_self_nonneg x, mul_self_nonneg y, mul_self_nonneg z]
 
 example : K2Documented 2 3 2 1 10 5 (-5) (-10) 2 1 0 1 2 := by
   unfold K2Documented; norm_num [abs_of_pos, abs_of_neg]
